@@ -160,9 +160,13 @@ def sub_orders(acc, shard, nshards, tier):
     else:
         static = [("1pos,n<=4,L<=3,prio", H(2, 4), ["x"], (0, 1), 2, 3, None), ("1pos,n<=3,L=4", H(3, 3), ["x"], (0,), 4, 4, 2),
                   ("2pos,n<=3,L=3", H(2, 3), ["xy"], (0,), 3, 3, 2),
-                  ("zero-argument calls,n<=3,L<=3", H(1, 3), ["x?", "x?y?", "x*k?"], (0, 1), 2, 3, None)]
-        sp_sizes, bound4 = (2, 3, 4), 2
+                  ("zero-argument calls,n<=2,L<=3", H(1, 2), ["x?", "x?y?", "x*k?"], (0, 1), 2, 3, 2)]
+        sp_sizes, bound4 = (2, 3, 4), 1  # (bound 2 on the 1365 four-method pools measured at > 1 h)
+    import os as _os
+
     for name, hiers, shapes, prios, lo, hi, bound in static:
+        if _os.environ.get("VT_C06_SPACE") and _os.environ["VT_C06_SPACE"] not in name:
+            continue  # (diagnostics only: time one space)
         for h in hiers:
             ds = spaces.descriptors(h.type_names, shapes, prios)
             calls = spaces.calls_for(h.type_names, shapes)
@@ -185,7 +189,7 @@ def sub_orders(acc, shard, nshards, tier):
                                              "call": list(args_n)})
     h, classes = special_env()
     vals = special_values(h)
-    for combo in special_programs(sp_sizes):
+    for combo in special_programs(sp_sizes) if not _os.environ.get("VT_C06_SPACE") else ():
         idx += 1
         if idx % nshards != shard:
             continue
